@@ -44,3 +44,23 @@ def single_batch(ctx, rid, fn, allow_after_commit=("store_tx",), group=None):
     if not ok3:
         run.finding(Finding(rid, fn.id, "Ok return after batch() without commit Ok", site=fn.loc()))
     return held and held2 and ok3
+
+
+def duplicate_lookup_complete(ctx, rid, f, call_b, call_t):
+    """The look-up that detects a replayed slate must see every log entry of that slate id:
+    no log-id restriction and outstanding_only == false on every production root."""
+    from ..flags import FlagRoots
+
+    run = ctx.run
+    a = call_t["a"]
+    # arg1 = tx_id must be None
+    p1 = vf.producers(f, a[1])
+    none_id = ("agg", "core::option::Option", "None") in p1 and not any(x[0] == "agg" and x[2] == "Some" for x in p1)
+    roots = FlagRoots(ctx).roots_of_operand(f, a[5], call_b)
+    all_false = bool(roots) and all(r[0] == "const" and str(r[1]) in ("0", "1-under-false-flag") for r in roots)
+    held = none_id and all_false
+    run.instance(rid, {"fn": pp.short(f.id), "obligation": "duplicate look-up covers all entries of the slate id (tx_id = None, outstanding_only false on every production root)", "outstanding_only_roots": sorted("%s %s" % (r[0], r[1]) for r in roots)}, held=held)
+    if not held:
+        run.finding(Finding(rid, f.id, "duplicate look-up does not see every entry of the slate id (restricted by log id or to outstanding entries)", site=c.site_of(f, call_b),
+                            detail="outstanding_only roots: %s" % sorted("%s %s" % (r[0], r[1]) for r in roots)))
+    return held
